@@ -264,6 +264,12 @@ class PE:
                     kw[k.arg] = v
             self.calls.append((unparse(e.func), args, kw))
             return Sym(unparse(e.func) + '(...)')
+        if d == 'isinstance' and len(e.args) == 2 and args[0] is not UNKNOWN and not isinstance(args[0], Sym):
+            tnames = [unparse(t) for t in (e.args[1].elts if isinstance(e.args[1], ast.Tuple) else [e.args[1]])]
+            table = {'str': str, 'list': list, 'tuple': tuple, 'dict': dict, 'set': set, 'int': int, 'float': float, 'bool': bool, 'bytes': bytes}
+            if all(t in table for t in tnames):
+                return isinstance(args[0], tuple(table[t] for t in tnames))
+            return UNKNOWN
         if any(a is UNKNOWN or isinstance(a, Sym) for a in args):
             return UNKNOWN
         if d in ('len', 'tuple', 'list', 'set', 'sorted', 'bool', 'str', 'any', 'all') and len(args) == 1:
